@@ -10,7 +10,7 @@
 (* JSON text and as decimal values).  Oracle: Decimal.tla (checked against *)
 (* TLC's integers and algebraic laws by the DecimalLaws modules).                     *)
 (***************************************************************************)
-EXTENDS Decimal, Json, SequencesExt
+EXTENDS Decimal, Json, SequencesExt, FiniteSets
 
 CONSTANTS Emit, Prop, Big      \* Big: the full pool
 
@@ -30,12 +30,20 @@ Core == { DZero, P(<<1>>, 0), M(<<1>>, 0), P(<<2>>, 0), P(<<3>>, 0), M(<<7>>, 0)
           P(<<9, 0, 0, 7, 1, 9, 9, 2, 5, 4, 7, 4, 0, 9, 9, 2>>, 0),               \* 2^53
           M(<<9, 0, 0, 7, 1, 9, 9, 2, 5, 4, 7, 4, 0, 9, 9, 3>>, 0),               \* -(2^53 + 1)
           P(Nines(34), 0), P(Threes(34), 0), P(Count(34), 0), P(<<1>>, 33), P(<<5>>, 33),
-          P(Nines(34), 0 - 34), P(Threes(34), 0 - 33), P(<<7>>, 0 - 34) }
+          P(Nines(34), 0 - 34), P(Threes(34), 0 - 33), P(<<7>>, 0 - 34),
+          \* binary fractions: exact as float64, long as decimals (1 + 2^-30, 2^-25 and its neighbour)
+          P(<<1, 0, 0, 0, 0, 0, 0, 0, 0, 0, 9, 3, 1, 3, 2, 2, 5, 7, 4, 6, 1, 5, 4, 7, 8, 5, 1, 5, 6, 2, 5>>, 0 - 30),
+          P(<<2, 9, 8, 0, 2, 3, 2, 2, 3, 8, 7, 6, 9, 5, 3, 1, 2, 5>>, 0 - 25),
+          P(<<2, 9, 8, 0, 2, 3, 2, 2, 3, 8, 7, 6, 9, 5, 3, 1, 2, 4>>, 0 - 25) }
 More == { P(Nines(33), 0), M(Nines(34), 0), P(<<1>>, 34), P(<<1>>, 0 - 40), P(<<2, 5>>, 0 - 2), P(Count(34), 0 - 17),
           P(<<1>>, 6000), P(Nines(34), 6111), P(<<1>>, 0 - 6000), P(<<1>>, 6111), M(<<5>>, 6144), P(<<1>>, 100),
           P(<<1>>, 0 - 6143), P(Count(20), 0 - 10), M(Count(34), 0 - 34), P(<<6>>, 0), P(<<1, 2, 5>>, 0 - 3) }
 Pool == IF Big THEN Core \cup More ELSE Core \cup { P(<<1>>, 6000), P(Nines(34), 6111), P(<<1>>, 0 - 6000), M(Nines(34), 0) }
-PoolSeq == SetToSeq(Pool)
+\* summands for the three-element sums: small integers (int32 range) next to 34-digit values
+TriPool == { DZero, P(<<1>>, 0), M(<<7>>, 0), M(<<6>>, 8), P(<<2, 1, 4, 7, 4, 8, 3, 6, 4, 7>>, 0), P(<<1, 5>>, 0 - 1),
+             P(Nines(34), 0 - 25), P(<<5>> \o [i \in 1..32 |-> 0] \o <<5>>, 0 - 25), M(<<5>> \o [i \in 1..32 |-> 0] \o <<5>>, 0 - 25),
+             P(Nines(34), 0), M(Nines(34), 0), P(Threes(34), 0 - 33), P(<<9, 0, 0, 7, 1, 9, 9, 2, 5, 4, 7, 4, 0, 9, 9, 3>>, 0) }
+PoolSeq == SetToSeq(Pool \cup TriPool)
 N == Len(PoolSeq)
 
 VARIABLES bucket, idx
@@ -80,6 +88,9 @@ Check == idx > 0 =>
                    [expr |-> <<97>> \o OpCps(op) \o <<98>>, doc |-> DocAB(x, y), adm |-> adm, carriers |-> <<"float64", "uint64">>],
                    [expr |-> <<97>> \o OpCps(op) \o <<98>>, doc |-> DocAB(x, y), adm |-> adm, carriers |-> <<"int64", "decimal">>],
                    [expr |-> <<97>> \o OpCps(op) \o <<98>>, doc |-> DocAB(x, y), adm |-> adm, carriers |-> <<"float32", "json">>],
+                   [expr |-> <<97>> \o OpCps(op) \o <<98>>, doc |-> DocAB(x, y), adm |-> adm, carriers |-> <<"float64", "json">>],
+                   [expr |-> <<97>> \o OpCps(op) \o <<98>>, doc |-> DocAB(x, y), adm |-> adm, carriers |-> <<"decimal", "float64">>],
+                   [expr |-> <<97>> \o OpCps(op) \o Lit(y), doc |-> DocAB(x, y), adm |-> adm, carriers |-> <<"float64", "json">>],
                    [expr |-> <<97>> \o OpCps(op) \o <<98>>, doc |-> DocAB(x, y), adm |-> adm, carriers |-> <<"int64", "int64">>],
                    [expr |-> <<97>> \o OpCps(op) \o <<98>>, doc |-> DocAB(x, y), adm |-> adm, carriers |-> <<"uint64", "int">>],
                    [expr |-> <<99,111,110,116,97,105,110,115,40,91,97,93,44,98,41>>, doc |-> DocAB(x, y), adm |-> {BoolV(CmpD(x, y) = 0)}, carriers |-> <<"int64", "float64">>],
@@ -88,6 +99,22 @@ Check == idx > 0 =>
       fns == { [expr |-> <<115,117,109,40,91>> \o Lit(x) \o <<44>> \o Lit(y) \o <<93,41>>, doc |-> DocAB(x, y), adm |-> sumadm, carriers |-> <<>>],
                [expr |-> <<115,117,109,40,91,97,44,98,93,41>>, doc |-> DocAB(x, y), adm |-> sumadm, carriers |-> <<"decimal", "json">>],
                [expr |-> <<97,118,103,40,91>> \o Lit(x) \o <<44>> \o Lit(y) \o <<93,41>>, doc |-> DocAB(x, y), adm |-> Avg2(x, y), carriers |-> <<>>] }
+      \* three summands, left to right: when every partial sum is exact the total is exact
+      \* (an implementation that adds in another order may round where this one does not)
+      tri == IF ~(x \in TriPool /\ y \in TriPool) THEN {} ELSE
+             UNION { LET s1 == ExactAdd(x, y)  s2 == ExactAdd(s1, z)
+                         fine == (IsZero(x) \/ IsZero(y) \/ Gap(x, y) <= AlignMax) /\ (IsZero(s1) \/ Len(s1.ds) <= Prec)
+                                 /\ (IsZero(s1) \/ IsZero(z) \/ Gap(s1, z) <= AlignMax) /\ (IsZero(s1) \/ Adj(s1) <= EMax)
+                         adm == IF fine THEN Round(s2) ELSE {Open}
+                     IN { [expr |-> <<115,117,109,40,91>> \o Lit(x) \o <<44>> \o Lit(y) \o <<44>> \o Lit(z) \o <<93,41>>, doc |-> DocAB(x, y), adm |-> adm, carriers |-> <<>>],
+                          [expr |-> <<115,117,109,40,91,97,44,98,44>> \o Lit(z) \o <<93,41>>, doc |-> DocAB(x, y), adm |-> adm, carriers |-> <<"json", "json">>],
+                          [expr |-> <<115,117,109,40,91,97,44,98,44>> \o Lit(z) \o <<93,41>>, doc |-> DocAB(x, y), adm |-> adm, carriers |-> <<"int64", "decimal">>],
+                          [expr |-> <<115,117,109,40,91,97,44,98,44>> \o Lit(z) \o <<93,41>>, doc |-> DocAB(x, y), adm |-> adm, carriers |-> <<"json", "int32">>],
+                          [expr |-> Lit(x) \o <<32,43,32>> \o Lit(y) \o <<32,43,32>> \o Lit(z), doc |-> DocAB(x, y), adm |-> adm, carriers |-> <<>>],
+                          [expr |-> <<97,118,103,40,91>> \o Lit(x) \o <<44>> \o Lit(y) \o <<44>> \o Lit(z) \o <<93,41,32,42,32,96,51,96,32,61,61,32,115,117,109,40,91>> \o Lit(x) \o <<44>> \o Lit(y) \o <<44>> \o Lit(z) \o <<93,41>>,
+                           doc |-> DocAB(x, y), adm |-> IF fine /\ ~IsZero(s2) /\ Len(s2.ds) <= 30 /\ Adj(s2) < 1000 /\ Adj(s2) > 0 - 1000 /\ Len(ExactMul(s2, P(<<3>>, 0)).ds) <= 30
+                                                  /\ Cardinality(Quot(s2, P(<<3>>, 0))) = 1 /\ (\A q \in Quot(s2, P(<<3>>, 0)) : q.t = "num") THEN {BoolV(TRUE)} ELSE {Open}, carriers |-> <<>>] }
+                   : z \in TriPool }
       una == IF idx # 1 THEN {} ELSE
              { [expr |-> <<97,98,115,40>> \o Lit(x) \o <<41>>, doc |-> NullV, adm |-> Round(AbsD(x)), carriers |-> <<>>],
                [expr |-> <<99,101,105,108,40>> \o Lit(x) \o <<41>>, doc |-> NullV, adm |-> Round(Norm(CeilD(x).neg, CeilD(x).ds, CeilD(x).e)), carriers |-> <<>>],
@@ -98,7 +125,7 @@ Check == idx > 0 =>
                [expr |-> <<116,111,95,110,117,109,98,101,114,40,39>> \o DecTextPlain(x) \o <<39,41>>, doc |-> NullV, adm |-> Round(x), carriers |-> <<>>],
                [expr |-> <<116,111,95,110,117,109,98,101,114,40,39>> \o DecText(x) \o <<39,41,61,61>> \o LitPlain(x), doc |-> NullV, adm |-> {BoolV(TRUE)}, carriers |-> <<>>],
                [expr |-> LitPlain(x), doc |-> NullV, adm |-> Round(x), carriers |-> <<>>] }
-      all == UNION { bin(op) : op \in ArithOps \cup CmpOps } \cup fns \cup una
+      all == UNION { bin(op) : op \in ArithOps \cup CmpOps } \cup fns \cup una \cup tri
       case == [p |-> Prop, kind |-> "search", multi |-> all]
   IN /\ Emit => PrintT("CASE " \o ToJson(case))
      \* sanity of the oracle on this pair
